@@ -15,6 +15,13 @@ Script ops (JSON-able lists)
   ['open', kind, link, side, variant]   kind 'le' (variant = PSM index 0/1), 'ec' (variant = count 1/2),
                                          'cl' (variant 0); side = initiator
   ['refused', kind, link, side]         open towards a PSM nobody serves
+  ['cancel', kind, link, side, variant, at]
+                                        the open is started as a task and the CALLER cancels that task just before
+                                        the at-th message (counted from the start of the op) is delivered; when the
+                                        open has completed by then it is an ordinary open.  Afterwards the peer
+                                        aborts any LE/enhanced server half it was left with (its own clean-up: such a
+                                        half would make it refuse, legitimately, the re-used source CID); a classic
+                                        server half is left alone and modelled as open on the peer only
   ['close', rec, by]                    by 'client' | 'server'   (orderly disconnect by that half)
   ['abort', rec, first]                 channel.abort() on the `first` half, then on the other half
   ['drain', rec, writer]                writer half writes more than its credits allow, awaits drain()
@@ -85,6 +92,8 @@ class Bed:
         self.orphans = []  # Recs with a server half only (client never got its channel)
         self.runs = []  # every OpRun
         self.msgs = 0
+        self.allmsgs = 0
+        self.cancel_req = None  # (OpRun, absolute message index)
         self.counting = False
         self.cut = None
         self.cut_done = False
@@ -118,10 +127,18 @@ class Bed:
         prev = w.loop.on_step
 
         def on_step(handle):
-            if self.counting and w.loop.classify(handle) is not None:
-                if self.cut is not None and not self.cut_done and self.msgs == self.cut['at']:
-                    self._inject_cut()
-                self.msgs += 1
+            if w.loop.classify(handle) is not None:
+                if self.cancel_req is not None and self.allmsgs == self.cancel_req[1]:
+                    r = self.cancel_req[0]
+                    self.cancel_req = None
+                    if not r.task.done():
+                        r.cancel_sent = True
+                        r.task.cancel()
+                self.allmsgs += 1
+                if self.counting:
+                    if self.cut is not None and not self.cut_done and self.msgs == self.cut['at']:
+                        self._inject_cut()
+                    self.msgs += 1
             if prev:
                 prev(handle)
 
@@ -197,18 +214,21 @@ class Bed:
         """Create the OpRun(s) for a simple op; returns list (empty when skipped)."""
         loop = self.w.loop
         k = op[0]
-        if k in ('open', 'refused'):
+        if k in ('open', 'refused', 'cancel'):
             kind, L, side = op[1], op[2], op[3]
-            variant = op[4] if k == 'open' else 0
+            variant = op[4] if k != 'refused' else 0
             r = OpRun(op, L, side, 'connect')
-            if k == 'open':
+            r.cancel_sent = False
+            if k != 'refused':
                 n = variant if kind == 'ec' else 1
                 r.rids = list(range(self.next_rid, self.next_rid + n))
                 self.next_rid += n
             if self.dead[(L, side)]:
                 return []
             r.mark = len(self.incoming[self.dev_index(L, OTHER[side])])
-            r.task = loop.create_task(self._co_open(kind, L, side, variant, served=(k == 'open')))
+            r.task = loop.create_task(self._co_open(kind, L, side, variant, served=(k != 'refused')))
+            if k == 'cancel':
+                self.cancel_req = (r, self.allmsgs + op[5])
         elif k in ('close', 'drain'):
             rec = self.recs.get(op[1])
             if rec is None:
@@ -266,7 +286,7 @@ class Bed:
         return started
 
     def _links_of(self, o):
-        if o[0] in ('open', 'refused'):
+        if o[0] in ('open', 'refused', 'cancel'):
             return {o[2]}
         rec = self.recs.get(o[1])
         return {rec.link} if rec is not None else set()
@@ -309,8 +329,15 @@ class Bed:
         L = r.link
         cut_here = self.link_cut(L)
         status, val = self._outcome(r)
-        ob = [r.op[0], r.op[1] if r.op[0] in ('open', 'refused') else r.rec.kind, status if status != 'error' else val]
+        ob = [r.op[0], r.op[1] if r.op[0] in ('open', 'refused', 'cancel') else r.rec.kind, status if status != 'error' else val]
         k = r.op[0]
+        if k == 'cancel':
+            self.cancel_req = None
+            if status == 'error' and val == 'CancelledError' and r.cancel_sent:
+                self._account_cancelled(r)
+                self.obs.setdefault(L, []).append(ob)
+                return
+            k = 'open'  # the open completed before the caller gave up (or failed by itself): judged as an open
         if status == 'pending':
             if not cut_here:
                 self.add_violation(
@@ -386,6 +413,36 @@ class Bed:
             if status == 'error' and not cut_here:
                 self.add_violation('drain_failed', {'kind': r.rec.kind, 'error': val}, f'{r.op} raised {val}')
         self.obs.setdefault(L, []).append(ob)
+
+    def _account_cancelled(self, r):
+        """The caller gave up on a pending open.  Its own side must forget the channel; what the peer was
+        left with is modelled (classic) or cleaned up by the peer itself (LE kinds)."""
+        L, side, kind = r.link, r.side, r.op[1]
+        resp = OTHER[side]
+        known = {id(h.obj) for rec in list(self.recs.values()) + self.orphans for h in rec.halves.values()}
+        m = self.manager(L, side)
+        h = self.conn[L][side].handle
+        for table in (m.channels, m.le_coc_channels):
+            for obj in list((table.get(h) or {}).values()):
+                if id(obj) not in known:
+                    known.add(id(obj))
+                    rec = Rec(-2, kind, L, side)
+                    rec.halves[side] = Half(obj)
+                    rec.halves[side].open = False
+                    rec.halves[side].closed_by = 'cancel'
+                    self.orphans.append(rec)
+        for ch in self.incoming[self.dev_index(L, resp)][r.mark:]:
+            if ch.connection is not self.conn[L][resp] or getattr(ch, '_c09_claimed', False):
+                continue
+            ch._c09_claimed = True
+            rec = Rec(-1, kind, L, side)
+            rec.halves[resp] = Half(ch)
+            self.orphans.append(rec)
+            if kind != 'cl':
+                ch.abort()
+                rec.halves[resp].open = False
+                rec.halves[resp].closed_by = 'abort'
+        self.closed_any[L] = True
 
     def _role(self, r):
         if r.rec is not None:
@@ -557,7 +614,7 @@ class Bed:
             if r.link == L and not r.task.done():
                 self.add_violation(
                     'waiter_hang',
-                    {'wait': r.what, 'kind': r.op[1] if r.op[0] in ('open', 'refused') else r.rec.kind},
+                    {'wait': r.what, 'kind': r.op[1] if r.op[0] in ('open', 'refused', 'cancel') else r.rec.kind},
                     f'{r.op}: awaited {r.what} ({self._role(r)} side) still pending 30 s after link {L} was disconnected ({self.cut}, issued {"after" if r.started_after_cut else "before"} the disconnect was requested)',
                 )
                 r.task.cancel()
